@@ -53,6 +53,15 @@ CHECKS["C06"] = dict(
     note="ext4-like directory-entry durability; atomic rename with sampled durability; op-granular prefixes; I/O errors not injected; checkpoint.meta is not bit-flipped. Several genuine defects of the pinned tree are listed in known_findings.jsonl and narrow what can still be observed behind them (see evidence.known_findings_seen).",
 )
 
+CHECKS["C20"] = dict(
+    engine="SCHED",
+    technique="deterministic simulation of thread schedules: 2-3 simulated threads under shuttle (random + PCT schedulers, recorded schedules) with every parking_lot acquire/release and every hooked atomic a scheduling point; outcome compared with all sequential interleavings of the same operations run on the real code, plus deadlock/no-progress/panic detection and memory-accounting invariants",
+    category="exploration",
+    text="Seeded search over scenarios (LpgStore core ops, LpgStore full op mix, RdfStore same-triple insert/remove, TransactionManager begin/write/commit/gc, BufferManager grants against a budget that fits k-1 of k requests), each explored under 40 (quick) / 120 (thorough) schedules. Returns and final state (primary data and every derived structure as seen through its accessors) must equal those of some sequential order; ids unique; commit epochs unique and increasing; allocated() <= hard limit sampled after every operation and 0 after all grants are dropped; shuttle's deadlock detector and a 60k-step bound give no-deadlock / bounded progress.",
+    design_ref="DESIGN.md §3 C20",
+    note="Interleavings at lock-operation and hooked-atomic granularity; lock-free internals of dashmap/crossbeam are not explored at their own granularity. The LpgStore full-mix family has open known findings (component structures updated under separate locks) that mask further deviations in the same outcome component; the lpg-core, rdf, txm and buffer families have none.",
+)
+
 NOT_APPLICABLE = {
     "C08": "pure function of (graph, query text): no schedule, clock, I/O, fault or shared state in the statement or its quantifier; differential/reference-interpreter testing is the fitting family, not simulation",
     "C09": "pure function of (graph, statistics state, query, optimizer switches); stale statistics are an input, not a schedule",
@@ -79,6 +88,7 @@ manifest = {
     "engines": [
         {"name": "TXM", "path": "sim/src/eng_txm.rs", "serves_properties": ["C03", "C04"], "kind_free_text": "single-threaded history simulator over TransactionManager with a reference model"},
         {"name": "STORE", "path": "sim/src/eng_store.rs", "serves_properties": ["C14"], "kind_free_text": "single-store history simulator over LpgStore with a brute-force reference graph"},
+        {"name": "SCHED", "path": "sim/src/eng_sched.rs", "serves_properties": ["C20"], "kind_free_text": "shuttle-scheduled simulated threads over the real stores/managers via the parking_lot lock seam (shims/parking_lot) and hooked atomics"},
         {"name": "DISK", "path": "sim/src/eng_disk.rs", "serves_properties": ["C05", "C06"], "kind_free_text": "persistent GrafeoDB over a tapped tmpfs directory + simulated clock; crash images computed from the disk-event log"},
     ],
     "checks": [],
